@@ -38,13 +38,28 @@
   variable-free literals (`flatOp`), over well-formed tables (`wfTable2`), for variable values
   that are maps with 32-bit integers:
   OBLIGATION c06_request_partial
-  The same with variables INSIDE list / input-object literals — stated, not proved; checked by
-  the correspondence only:
-  OPEN c06_request_valid
+  Variables INSIDE list / input-object literals.  There the code parses the literal with the RAW
+  variable values in it, the specification coerces the literal with the COERCED values in it:
+  the specification's coercion is idempotent up to the Rust value (a coerced value — single values
+  wrapped into lists, input objects completed with defaults — coerces again, as a literal, to the
+  same Rust value), for every declared type incl. input objects, provided the schema defaults of
+  input fields are coerced values (`defaultsCoerced`):
+  OBLIGATION c06_recoerce
+  coercion commutes with substitution, for every valid literal with variables of any type
+  (scalars, enums, lists, input objects, oneof objects) at any depth:
+  OBLIGATION c06_subst_coerce
+  The request-level statement without `flatOp` as first written (`c06_request_valid`, kept as
+  `def … : Prop`) is REFUTED: nothing made the schema default of an input field a coerced value
+  (`{x: 1, zzz: 2}` with an undeclared key is ignored by the generated `parse` and by `view`, but
+  refused when the specification coerces the completed variable value again inside a literal):
+  OBLIGATION c06_request_valid_false
+  With that side condition the request level holds for ALL valid documents:
+  OBLIGATION c06_request_valid_wf
 -/
 import AGV.Lemmas.CoerceTyped
 import AGV.Lemmas.CoerceRequest
 import AGV.Lemmas.CoerceReqProof
+import AGV.Lemmas.CoerceNested
 
 namespace AGV.Props.C06
 open AGV.Core
@@ -384,7 +399,8 @@ def defaultsOk (T : Table) : Prop :=
     refutation went through a non-object value at an input-object type, since repaired in the
     code and now the toggle `nonObjectPassesInputObject`:
     `c06_witness_non_object_passes_input_object`.)  Corrected: `c06_request_partial` (proved),
-    `c06_request_valid` (open). -/
+    `c06_request_valid` (refuted once more: schema defaults),
+    `c06_request_valid_wf` (proved, all valid documents). -/
 def c06_request_wf : Prop :=
   ∀ (T : Table) (op : OpDef) (raw : List (String × GValue)),
     wfTable T = true → defaultsOk T → docOk T op = true →
@@ -576,13 +592,122 @@ example : wfTable2 T2 = true ∧ defaultsOk T2 ∧ docOk T2 opFlat = true ∧ fl
   simp only [List.mem_cons, List.mem_nil_iff, or_false] at hp
   subst hp; exact ⟨rfl, rfl⟩
 
-/-- **Request level, corrected** (OPEN — not proved): `c06_request_partial` without `flatOp`, i.e. also
-    for variables INSIDE list and input-object literals.  There the code parses the literal with
-    the RAW variable values substituted at the position's type, the specification coerces the
-    literal with the variable values already COERCED at the variable's type substituted; equating
-    the two needs "coercion commutes with substitution" up to `view` (the re-coercion of a coerced
-    input object — defaults filled in, keys reordered — is the same Rust value), which is not
-    proved. -/
+-- ------------------------------------------------------------------ variables inside literals
+
+/-- **The specification's input coercion is idempotent up to the Rust value.**  For every
+    well-formed table whose input-field defaults are coerced values (`defaultsCoerced`: the
+    specification's coercion accepts the default at the field's type and the result denotes the
+    same Rust value), every declared type and every value — a JSON variable value or a literal —
+    that coerces at it: the coerced value coerces again, as a literal, at that type, and the result
+    denotes the same Rust value.  (Not always the same value: an input object that received a
+    default gets the default coerced the second time.) -/
+theorem c06_recoerce (T : Table) (hwf : wfTable T = true) (hdc : defaultsCoerced T) (j : Bool)
+    (v : GValue) (rty : RTy) (c : GValue) (h : coerce T j rty.gql v = some c) :
+    ∃ c', coerce T false rty.gql c = some c' ∧ view T rty c' = view T rty c :=
+  coerce_reco T hwf hdc j v rty c h
+
+/-- `T2` with a second root field taking the oneof object -/
+def T8 : Table :=
+  { types := [("Int", .scalar),
+              ("I", .input false [⟨"a", .opt (.named "Int"), none⟩, ⟨"b", .named "Int", some (.int 5)⟩,
+                                  ⟨"c", .vec (.vec (.named "Int")), none⟩]),
+              ("O", .input true [⟨"x", .opt (.named "Int"), none⟩, ⟨"y", .opt (.named "I"), none⟩])],
+    fields := [⟨"f", [⟨"x", .opt (.named "I"), none⟩]⟩, ⟨"g", [⟨"o", .named "O", none⟩]⟩] }
+
+theorem T8_fields : ∀ n o fs f d, T8.find? n = some (.input o fs) → f ∈ fs → f.default = some d →
+    d = .int 5 ∧ f.ty = .named "Int" := by
+  intro n o fs f d hfind hf hdef
+  have hmem := find_mem hfind
+  simp only [T8, List.mem_cons, Prod.mk.injEq, reduceCtorEq, and_false, false_or, List.mem_nil_iff, or_false,
+    NDef.input.injEq] at hmem
+  rcases hmem with ⟨rfl, rfl, rfl⟩ | ⟨rfl, rfl, rfl⟩
+  · simp only [List.mem_cons, List.mem_nil_iff, or_false] at hf
+    rcases hf with rfl | rfl | rfl
+    · cases hdef
+    · cases hdef; exact ⟨rfl, rfl⟩
+    · cases hdef
+  · simp only [List.mem_cons, List.mem_nil_iff, or_false] at hf
+    rcases hf with rfl | rfl <;> cases hdef
+
+theorem T8_defaultsOk : defaultsOk T8 := by
+  constructor
+  · intro n o fs f d hfind hf hdef
+    obtain ⟨rfl, hty⟩ := T8_fields n o fs f d hfind hf hdef
+    simp only [fieldDefault, hty]; rfl
+  · intro sig hsig a ha d hdef
+    simp only [T8, List.mem_cons, List.mem_nil_iff, or_false] at hsig
+    rcases hsig with rfl | rfl <;>
+    · simp only [List.mem_cons, List.mem_nil_iff, or_false] at ha
+      subst ha; cases hdef
+
+theorem T8_defaultsCoerced : defaultsCoerced T8 := by
+  intro n o fs f d hfind hf hdef
+  obtain ⟨rfl, hty⟩ := T8_fields n o fs f d hfind hf hdef
+  rw [hty]
+  exact ⟨.int 5, rfl, rfl⟩
+
+/-- e.g. `{c: 2}` at `[I!]!` coerces to `[{b: 5, c: [[2]]}]`, which coerces again to itself -/
+example : wfTable T8 = true ∧ defaultsCoerced T8 ∧
+    coerce T8 true (RTy.vec (.named "I")).gql (.obj [("c", .int 2)]) =
+      some (.list [.obj [("b", .int 5), ("c", .list [.list [.int 2]])]]) :=
+  ⟨rfl, T8_defaultsCoerced, rfl⟩
+
+/-- **Coercion commutes with substitution.**  For every well-formed table whose defaults denote
+    the Rust defaults and are coerced values, every set of variable definitions with pairwise
+    distinct names whose values coerce (`coerceVars … = some vars`; values and defaults are maps),
+    every declared type and every literal that is valid at it (`litOk`: variables of ANY type —
+    scalars, enums, lists, input objects, oneof objects — at any depth in allowed positions):
+    the literal with the RAW variable values in it (`resolve`, what the code parses) vanishes
+    exactly when the literal with the COERCED values in it (`subst`, what the specification
+    coerces) does, and otherwise the repaired `InputType::parse` of the former succeeds exactly
+    when the specification's coercion of the latter does and delivers the Rust view of the coerced
+    value. -/
+theorem c06_subst_coerce (T : Table) (hwf : wfTable2 T = true) (hdef : defaultsOk T) (hdc : defaultsCoerced T)
+    (defs : List VarDef) (raw vars : List (String × GValue))
+    (hnd : nodupB (defs.map (·.name)) = true) (hcv : coerceVars T defs raw = some vars)
+    (hkeys : ∀ p ∈ raw, distinctKeys p.2 = true)
+    (hdk : ∀ vd ∈ defs, ∀ d, vd.default = some d → distinctKeys d = true)
+    (dv : DValue) (rty : RTy) (hd : Bool) (hlit : litOk T defs rty.gql hd dv = true) :
+    (resolve defs raw dv = none → subst vars dv = none) ∧
+    (∀ x, resolve defs raw dv = some x → ∃ y, subst vars dv = some y ∧
+      parseD Defects.none T rty x = (coerce T false rty.gql y).map (view T rty)) := by
+  have C : VarCtx T defs raw vars := ⟨hnd, hcv, hkeys, hdk⟩
+  refine ⟨(lit_sim T hwf hdc defs raw vars C dv rty hd hlit).1, ?_⟩
+  intro x hx
+  obtain ⟨y, hy, hp, _⟩ := lit_parse T hwf hdef.1 hdc defs raw vars C dv rty hd hlit x hx
+  exact ⟨y, hy, hp⟩
+
+/-- `query($v: I!, $n: Int = 1, $m: Int){ g(o: {y: $v}) f(x: {a: $m, c: [[$n, 3]]}) }` -/
+def opNested : OpDef :=
+  { ty := .query, name := none,
+    vars := [⟨"v", .nonNull (.named "I"), none⟩, ⟨"n", .named "Int", some (.int 1)⟩, ⟨"m", .named "Int", none⟩],
+    dirs := [],
+    sels := [.field none "g" [("o", .obj [("y", .var "v")])] [] [] ⟨0, 0⟩,
+             .field none "f" [("x", .obj [("a", .var "m"), ("c", .list [.list [.var "n", .int 3]])])] [] [] ⟨0, 0⟩] }
+
+/-- the hypotheses are met by `T8`, the variables of `opNested`, `v = {c: 2}` and the literal
+    `{y: $v}` at the oneof object `O`: the code parses `{y: {c: 2}}`, the specification coerces
+    `{y: {b: 5, c: [[2]]}}` -/
+example : wfTable2 T8 = true ∧ defaultsOk T8 ∧ defaultsCoerced T8
+    ∧ nodupB (opNested.vars.map (·.name)) = true
+    ∧ coerceVars T8 opNested.vars [("v", .obj [("c", .int 2)])] =
+        some [("v", .obj [("b", .int 5), ("c", .list [.list [.int 2]])]), ("n", .int 1)]
+    ∧ litOk T8 opNested.vars (RTy.named "O").gql false (.obj [("y", .var "v")]) = true
+    ∧ resolve opNested.vars [("v", .obj [("c", .int 2)])] (.obj [("y", .var "v")]) =
+        some (.obj [("y", .obj [("c", .int 2)])])
+    ∧ subst [("v", .obj [("b", .int 5), ("c", .list [.list [.int 2]])]), ("n", .int 1)] (.obj [("y", .var "v")]) =
+        some (.obj [("y", .obj [("b", .int 5), ("c", .list [.list [.int 2]])])]) :=
+  ⟨rfl, T8_defaultsOk, T8_defaultsCoerced, rfl, rfl, rfl, rfl, rfl⟩
+
+/-- **Request level, second correction as first written**: `c06_request_partial` without `flatOp`,
+    i.e. also for variables INSIDE list and input-object literals.  FALSE
+    (`c06_request_valid_false`): `defaultsOk` only says that the schema default of an input field
+    is parsed to its own `view`; both ignore an undeclared key inside the default
+    (`{x: 1, zzz: 2}`).  The specification completes a variable value of that input type with the
+    default as it stands (§3.10), and when the completed value is coerced again inside a literal
+    (`g(xs: [$v])`) the undeclared key fails the field, while the code parses the raw value and
+    invokes the resolver.  No derive macro registers such a default (`to_value` of the Rust value);
+    with the side condition `defaultsCoerced` the statement holds: `c06_request_valid_wf`. -/
 def c06_request_valid : Prop :=
   ∀ (T : Table) (op : OpDef) (raw : List (String × GValue)),
     wfTable2 T = true → defaultsOk T → docOk T op = true →
@@ -597,5 +722,113 @@ def c06_request_valid : Prop :=
         match p.1.2 with
         | some args => p.2.2 = .seen args ∨ (fs.any (·.2.isNone) ∧ (p.2.2 = .err ∨ p.2.2 = .notInvoked))
         | none => p.2.2 = .err ∨ p.2.2 = .notInvoked
+
+/-- `I { f: J = {x: 1, zzz: 2} }` where `J` has no field `zzz`; `g(xs: Vec<I>)` -/
+def T9 : Table :=
+  { types := [("Int", .scalar),
+              ("J", .input false [⟨"x", .opt (.named "Int"), none⟩]),
+              ("I", .input false [⟨"f", .named "J", some (.obj [("x", .int 1), ("zzz", .int 2)])⟩])],
+    fields := [⟨"g", [⟨"xs", .vec (.named "I"), none⟩]⟩] }
+
+/-- `query($v: I!){ g(xs: [$v]) }` -/
+def opDefaultKey : OpDef :=
+  { ty := .query, name := none, vars := [⟨"v", .nonNull (.named "I"), none⟩], dirs := [],
+    sels := [.field none "g" [("xs", .list [.var "v"])] [] [] ⟨0, 0⟩] }
+
+theorem T9_defaults : defaultsOk T9 := by
+  constructor
+  · intro n o fs f d hfind hf hdef
+    have hmem := find_mem hfind
+    simp only [T9, List.mem_cons, Prod.mk.injEq, reduceCtorEq, and_false, false_or, List.mem_nil_iff, or_false,
+      NDef.input.injEq] at hmem
+    rcases hmem with ⟨rfl, rfl, rfl⟩ | ⟨rfl, rfl, rfl⟩
+    · simp only [List.mem_cons, List.mem_nil_iff, or_false] at hf
+      subst hf; cases hdef
+    · simp only [List.mem_cons, List.mem_nil_iff, or_false] at hf
+      subst hf; cases hdef; rfl
+  · intro sig hsig a ha d hdef
+    simp only [T9, List.mem_cons, List.mem_nil_iff, or_false] at hsig
+    subst hsig
+    simp only [List.mem_cons, List.mem_nil_iff, or_false] at ha
+    subst ha; cases hdef
+
+theorem c06_request_valid_false : ¬ c06_request_valid := by
+  intro h
+  have h := h T9 opDefaultKey [("v", .obj [])] (by rfl) T9_defaults (by rfl)
+    (by intro p hp; simp only [List.mem_cons, List.mem_nil_iff, or_false] at hp; subst hp; rfl)
+    (by intro p hp; simp only [List.mem_cons, List.mem_nil_iff, or_false] at hp; subst hp; rfl)
+  have hreq : request T9 opDefaultKey [("v", .obj [])] = some [("g", none)] := by rfl
+  have hrun : (run Defects.none T9 opDefaultKey [("v", .obj [])]).status = .ok := by rfl
+  rw [hreq] at h
+  have h1 := h.1.mp hrun
+  cases h1
+
+/-- the default of `T9` is not a coerced value -/
+example : ¬ defaultsCoerced T9 := by
+  intro h
+  obtain ⟨c, hc, _⟩ := h "I" false _ ⟨"f", .named "J", some (.obj [("x", .int 1), ("zzz", .int 2)])⟩ _
+    (by rfl) (by simp) rfl
+  have : coerce T9 false (RTy.named "J").gql (.obj [("x", .int 1), ("zzz", .int 2)]) = none := by rfl
+  rw [this] at hc
+  cases hc
+
+/-- **Request level, all valid documents.**  For every well-formed table (`wfTable2`) whose
+    defaults denote the Rust defaults (`defaultsOk`) and whose input-field defaults are coerced
+    values (`defaultsCoerced`), every VALID query operation (`docOk`) — variables as arguments and
+    INSIDE list and input-object literals at any depth — and every assignment of variable values
+    that are maps (`distinctKeys`) and have 32-bit integers (`intsSmall`): if variable coercion
+    fails nothing is invoked and the response has an error; otherwise a root field whose
+    specified argument coercion succeeds is invoked with exactly the specified arguments unless
+    some field of the request fails, and a field whose coercion fails is not invoked and the
+    response has an error.  About the repaired model (all toggles off). -/
+theorem c06_request_valid_wf (T : Table) (op : OpDef) (raw : List (String × GValue))
+    (hwf : wfTable2 T = true) (hdef : defaultsOk T) (hdc : defaultsCoerced T) (hdoc : docOk T op = true)
+    (hsmall : ∀ p ∈ raw, intsSmall p.2 = true) (hkeys : ∀ p ∈ raw, distinctKeys p.2 = true) :
+    match request T op raw with
+    | none => (run Defects.none T op raw).status ≠ .ok ∧
+        ∀ f ∈ (run Defects.none T op raw).fields, f.2 = .err ∨ f.2 = .notInvoked
+    | some fs =>
+      ((run Defects.none T op raw).status = .ok ↔ fs.all (·.2.isSome) = true) ∧
+      ∀ p ∈ fs.zip (run Defects.none T op raw).fields,
+        p.1.1 = p.2.1 ∧
+        match p.1.2 with
+        | some args => p.2.2 = .seen args ∨ (fs.any (·.2.isNone) ∧ (p.2.2 = .err ∨ p.2.2 = .notInvoked))
+        | none => p.2.2 = .err ∨ p.2.2 = .notInvoked := by
+  have H : ReqBase T op raw := ⟨hwf, hdef.1, hdef.2, hdoc, hsmall, hkeys⟩
+  cases hcv : coerceVars T op.vars raw with
+  | none =>
+    have hreq : request T op raw = none := by simp [request, hcv]
+    obtain ⟨h1, h2⟩ := H.request_none hcv
+    rw [hreq]
+    simp only [h1, h2]
+    refine ⟨by simp, ?_⟩
+    intro f hf
+    simp only [List.mem_map] at hf
+    obtain ⟨r, _, rfl⟩ := hf
+    exact Or.inr rfl
+  | some vars =>
+    obtain ⟨h1, h2⟩ := H.request_some vars hcv (H.root_eq hdc vars hcv) (H.root_invalid hdc vars hcv)
+    rw [request_eq T op raw vars hcv]
+    refine ⟨h1, ?_⟩
+    intro p hp
+    obtain ⟨ha, hb, hc⟩ := h2 p hp
+    refine ⟨ha, ?_⟩
+    split
+    · rename_i args hargs; exact hb args hargs
+    · rename_i hnone; exact hc hnone
+
+/-- the hypotheses are met by `T8`, `opNested` and `v = {c: 2}`: both resolvers are invoked; the
+    object variable inside the oneof literal arrives completed (`b` = 5, `c: 2` as `[[2]]`), the
+    variable without runtime value leaves `a` as `None`, `$n` contributes its default inside the
+    nested list -/
+example : wfTable2 T8 = true ∧ defaultsOk T8 ∧ defaultsCoerced T8 ∧ docOk T8 opNested = true ∧ flatOp opNested = false
+    ∧ (∀ p ∈ [("v", GValue.obj [("c", .int 2)])], intsSmall p.2 = true ∧ distinctKeys p.2 = true)
+    ∧ (run Defects.none T8 opNested [("v", .obj [("c", .int 2)])]).fields =
+        [("g", .seen [("o", .obj [("y", .obj [("a", .null), ("b", .int 5), ("c", .list [.list [.int 2]])])])]),
+         ("f", .seen [("x", .obj [("a", .null), ("b", .int 5), ("c", .list [.list [.int 1, .int 3]])])])] := by
+  refine ⟨rfl, T8_defaultsOk, T8_defaultsCoerced, rfl, rfl, ?_, rfl⟩
+  intro p hp
+  simp only [List.mem_cons, List.mem_nil_iff, or_false] at hp
+  subst hp; exact ⟨rfl, rfl⟩
 
 end AGV.Props.C06
